@@ -118,27 +118,38 @@ def make_art_classes(cfg):
     hooks = []
     if restarts is not None:
         class ArtificialRestarts(ConvergenceController):
+            """Requests a restart of the step that starts at one of the listed times (each list entry is used once).
+            The bookkeeping is done so that one shared instance (serial) and one instance per rank (MPI) behave alike:
+            entries used during a block are collected (over the ranks) and removed when the next block is prepared."""
+
             def __init__(self, controller, params, description, **kwargs):
                 super().__init__(controller, params, description, **kwargs)
                 self.restart_times = list(restarts)
-                self._encountered_restart = False
+                self._used = []
+
+            def _pending(self):
+                left = list(self.restart_times)
+                for t in self._used:
+                    left.remove(t)
+                return left
 
             def determine_restart(self, controller, S, **kwargs):
                 super().determine_restart(controller, S, **kwargs)
                 if S.status.iter < S.params.maxiter and S.levels[0].status.residual > S.levels[0].params.restol:
                     return None
-                if any(abs(me - S.time) < dt / 10.0 for me in self.restart_times):
+                left = self._pending()
+                hits = [me for me in left if abs(me - S.time) < dt / 10.0]
+                if hits:
                     S.status.restart = True
-                    self.restart_times.pop(int(np.argmin([abs(me - S.time) for me in self.restart_times])))
-                    self._encountered_restart = True
+                    self._used.append(hits[0])
 
             def prepare_next_block(self, controller, S, *args, **kwargs):
+                used = self._used
                 if 'comm' in kwargs:
-                    updated = kwargs['comm'].allgather(self._encountered_restart)
-                    if any(updated):
-                        first_updated = int(np.min(np.arange(len(updated))[updated]))
-                        self.restart_times = kwargs['comm'].bcast(self.restart_times, root=first_updated)
-                self._encountered_restart = False
+                    used = [t for part in kwargs['comm'].allgather(self._used) for t in part]
+                for t in used:
+                    self.restart_times.remove(t)
+                self._used = []
 
         out[ArtificialRestarts] = {}
     if art_dt is not None:
